@@ -3,6 +3,7 @@
 From Coq Require Import List Bool Arith Lia ZArith.
 From GS Require Import Num Loops C07_Model.
 Import ListNotations.
+Local Arguments Nat.mul : simpl never.
 
 (* ---------- names *)
 Lemma has_add_same n l : has n (add_name n l) = true.
@@ -21,6 +22,13 @@ Proof.
   unfold has. rewrite existsb_app. simpl. destruct (Nat.eqb_spec n m); [contradiction|]. now rewrite !orb_false_r.
 Qed.
 
+Lemma has_rk_add a b i l : i < 2 -> has (3 * a + 2) (add_name (3 * b + i) l) = has (3 * a + 2) l.
+Proof. intros Hi. apply has_add_inv. lia. Qed.
+Lemma upd_same {A} (f : nat -> A) n v : upd f n v n = v.
+Proof. unfold upd. now rewrite Nat.eqb_refl. Qed.
+Lemma upd_other {A} (f : nat -> A) n v k : k <> n -> upd f n v k = f k.
+Proof. intros H. unfold upd. destruct (Nat.eqb_spec k n); [contradiction|reflexivity]. Qed.
+
 (* positions with jit 0: _pos_equal means identical *)
 Lemma close_eq a b : p_jit a = 0 -> p_jit b = 0 -> pos_close a b = true -> a = b.
 Proof.
@@ -34,14 +42,15 @@ Definition settings (d : KDesc) := (k_cond d, k_matmodel d, k_model d, k_mtn d).
 (* ---------- the invariant of the current tree *)
 Definition Inv (s : St) : Prop :=
   st_matmodel s < st_next s /\ st_model s < st_next s /\ st_kvid s < st_next s /\
-  (forall id m rp, st_ref s = Some (id, m, rp) -> id < st_next s /\ p_jit rp = 0) /\
+  (forall ns id m rp, st_ref s ns = Some (id, m, rp) -> id < st_next s /\ p_jit rp = 0) /\
   (forall q, st_pos s = Some q -> p_jit q = 0) /\
   p_jit (k_pos (st_kv s)) = 0 /\
   (* the stored kriging variance was computed from the current settings *)
   (refreshed s -> has 1 (st_knames s) = true -> settings (st_kv s) = settings (cur_desc s)) /\
   (* if the stored krige_var is the object remembered with raw_krige, both stem from one kriging run *)
-  (forall id m rp, has 2 (st_cnames s) = true -> has 1 (st_knames s) = true -> st_ref s = Some (id, m, rp) ->
-     st_kvid s = id -> st_rk s = st_kv s /\ k_pos (st_kv s) = rp /\ k_mesh (st_kv s) = m).
+  (forall ns id m rp, has (3 * ns + 2) (st_cnames s) = true -> has 1 (st_knames s) = true ->
+     st_ref s ns = Some (id, m, rp) -> st_kvid s = id ->
+     st_rk s ns = st_kv s /\ k_pos (st_kv s) = rp /\ k_mesh (st_kv s) = m).
 
 Lemma Inv_init sd : Inv (init sd).
 Proof. unfold Inv, init; simpl. repeat split; try lia; try discriminate; intros; discriminate. Qed.
@@ -68,7 +77,7 @@ Proof.
   split; [exact B1|split; [exact B2|split; [exact B3|split; [exact R|split; [|split; [exact J|]]]]]].
   - intros q0 E. simpl in E. injection E as <-. exact Hq.
   - destruct (pos_changed s q m); simpl.
-    + split; [intros _ E; discriminate E|intros id m0 rp E; discriminate E].
+    + split; [intros _ E; discriminate E|intros ns id m0 rp E; discriminate E].
     + split; [exact K|exact T].
 Qed.
 
@@ -78,24 +87,25 @@ Proof.
   split; [exact B1|split; [exact B2|split; [exact B3|split; [exact R|split; [|split; [exact J|]]]]]].
   - intros q0 E. simpl in E. injection E as <-. exact Hq.
   - destruct (pos_changed s q m); simpl.
-    + split; [intros _ E; discriminate E|intros id m0 rp _ E; discriminate E].
+    + split; [intros _ E; discriminate E|intros ns id m0 rp _ E; discriminate E].
     + split; [exact K|exact T].
 Qed.
 
 (* what the reuse decision of the current tree guarantees *)
-Lemma reuse_current s2 del :
+Lemma reuse_current s2 del ns :
   Inv s2 -> refreshed s2 ->
-  negb del && has 2 (st_cnames s2) && has 1 (st_knames s2) && token_ok s2 = true ->
-  st_rk s2 = cur_desc s2 /\ st_kv s2 = cur_desc s2.
+  negb del && has (3 * ns + 2) (st_cnames s2) && has 1 (st_knames s2) && token_ok repaired s2 ns = true ->
+  st_rk s2 ns = cur_desc s2 /\ st_kv s2 = cur_desc s2.
 Proof.
   intros (B1 & B2 & B3 & R & P & J & K & T) Hr E.
   apply andb_true_iff in E. destruct E as [E E4]. apply andb_true_iff in E. destruct E as [E E3].
   apply andb_true_iff in E. destruct E as [_ E2].
-  unfold token_ok in E4. destruct (st_ref s2) as [[[id m] rp]|] eqn:F; [|discriminate].
+  unfold token_ok in E4. change (slot repaired ns) with ns in E4.
+  destruct (st_ref s2 ns) as [[[id m] rp]|] eqn:F; [|discriminate].
   apply andb_true_iff in E4. destruct E4 as [E4 E6]. apply andb_true_iff in E4. destruct E4 as [E4 E5].
   apply Nat.eqb_eq in E4. apply eqb_prop in E5.
-  destruct (T id m rp E2 E3 eq_refl E4) as (T1 & T2 & T3).
-  destruct (R id m rp eq_refl) as [_ Jr].
+  destruct (T ns id m rp E2 E3 F E4) as (T1 & T2 & T3).
+  destruct (R ns id m rp F) as [_ Jr].
   assert (Jc : p_jit (cur_pos s2) = 0).
   { unfold cur_pos. destruct (st_pos s2) eqn:Ps; [now apply P|reflexivity]. }
   pose proof (close_eq _ _ Jc Jr E6) as Ep.
@@ -107,42 +117,47 @@ Proof.
 Qed.
 
 (* the rest of the call on a state satisfying the invariant *)
-Lemma finish_ok s2 del srk : Inv s2 ->
-  let '(s', r) := finish_call repaired s2 del srk in
+Lemma finish_ok s2 del srk ns : Inv s2 ->
+  let '(s', r) := finish_call repaired s2 del srk ns in
   Inv s' /\ st_pos s' = st_pos s2 /\
   exists o, r = RField o /\ o_gmodel o = st_model s' /\ o_seed o = st_seed s' /\ o_post o = st_mtn s' /\
             (refreshed s' -> o_k o = cur_desc s' /\ o_v o = cur_desc s').
 Proof.
   intros HI. pose proof HI as (B1 & B2 & B3 & R & P & J & K & T). unfold finish_call.
-  change (f_token repaired) with true. cbv iota.
-  set (reuse := negb del && has 2 (st_cnames s2) && has 1 (st_knames s2) && token_ok s2).
-  assert (RC : reuse = true -> refreshed s2 -> st_rk s2 = cur_desc s2 /\ st_kv s2 = cur_desc s2).
-  { intros E Hr. apply (reuse_current s2 del HI Hr E). }
+  change (f_token repaired) with true. change (slot repaired ns) with ns. cbv iota zeta.
+  set (rn := rkset srk ns).
+  set (reuse := negb del && has (3 * rn + 2) (st_cnames s2) && has 1 (st_knames s2) && token_ok repaired s2 rn).
+  assert (RC : reuse = true -> refreshed s2 -> st_rk s2 rn = cur_desc s2 /\ st_kv s2 = cur_desc s2).
+  { intros E Hr. apply (reuse_current s2 del rn HI Hr E). }
   assert (Jc : p_jit (cur_pos s2) = 0).
   { unfold cur_pos. destruct (st_pos s2) eqn:Ps; [now apply P|reflexivity]. }
-  assert (H1 : reuse = true -> has 1 (st_knames s2) = true).
-  { intros E. unfold reuse in E. apply andb_true_iff in E. destruct E as [E _]. apply andb_true_iff in E. apply E. }
-  assert (H2 : reuse = true -> has 2 (st_cnames s2) = true).
-  { intros E. unfold reuse in E. apply andb_true_iff in E. destruct E as [E _]. apply andb_true_iff in E. destruct E as [E _].
-    apply andb_true_iff in E. apply E. }
+  (* the raw-kriging names of other name sets are not touched by this call *)
+  assert (NM : forall a l, has (3 * a + 2) (add_name (3 * ns) (add_name (3 * ns + 1) l)) = has (3 * a + 2) l).
+  { intros a l. replace (3 * ns) with (3 * ns + 0) at 1 by lia. rewrite has_rk_add by lia. apply has_rk_add. lia. }
   split; [|split; [reflexivity|]].
   - destruct reuse eqn:E; simpl.
     + (* reuse: only names grow *)
       unfold Inv, refreshed, cur_desc, cur_pos, settings. simpl.
       split; [exact B1|split; [exact B2|split; [exact B3|split; [exact R|split; [exact P|split; [exact J|split]]]]]].
-      * intros Hr _. apply K; auto.
-      * intros id m rp _ _ F Eid. apply (T id m rp); auto.
+      * intros Hr _. apply K; auto. unfold reuse in E. apply andb_true_iff in E. destruct E as [E _].
+        apply andb_true_iff in E. apply E.
+      * intros a id m rp H2 _ F Eid. rewrite NM in H2. apply (T a id m rp); auto.
+        unfold reuse in E. apply andb_true_iff in E. destruct E as [E _]. apply andb_true_iff in E. apply E.
     + destruct srk; simpl.
       * unfold Inv, refreshed, cur_desc, cur_pos, settings. simpl.
         split; [lia|split; [lia|split; [lia|split; [|split; [exact P|split; [exact Jc|split]]]]]].
-        { intros id m rp F. injection F as <- <- <-. split; [lia|exact Jc]. }
+        { intros a id m rp F. destruct (Nat.eq_dec a ns) as [->|Hne].
+          - rewrite upd_same in F. injection F as <- <- <-. split; [lia|exact Jc].
+          - rewrite upd_other in F by exact Hne. destruct (R a id m rp F). split; [lia|assumption]. }
         { intros _ _. reflexivity. }
-        { intros id m rp _ _ F _. injection F as <- <- <-. repeat split. }
+        { intros a id m rp _ _ F Eid. destruct (Nat.eq_dec a ns) as [->|Hne].
+          - rewrite upd_same in F. rewrite upd_same. injection F as <- <- <-. repeat split.
+          - rewrite upd_other in F by exact Hne. destruct (R a id m rp F). lia. }
       * unfold Inv, refreshed, cur_desc, cur_pos, settings. simpl.
         split; [lia|split; [lia|split; [lia|split; [|split; [exact P|split; [exact Jc|split]]]]]].
-        { intros id m rp F. destruct (R id m rp F). split; [lia|assumption]. }
+        { intros a id m rp F. destruct (R a id m rp F). split; [lia|assumption]. }
         { intros _ _. reflexivity. }
-        { intros id m rp _ _ F Eid. destruct (R id m rp F). lia. }
+        { intros a id m rp _ _ F Eid. destruct (R a id m rp F). lia. }
   - eexists. split; [reflexivity|]. simpl. split; [reflexivity|split; [reflexivity|split; [reflexivity|]]].
     intros Hr. destruct reuse eqn:E; [|split; reflexivity].
     assert (Hr2 : refreshed s2) by exact Hr.
@@ -157,8 +172,9 @@ Definition call_post (s' : St) (r : Res) : Prop :=
   | _ => True
   end.
 
-Lemma call_spec s p sd srk :
-  Inv s -> clean_op (Call p sd srk) -> call_post (fst (do_call repaired s p sd srk)) (snd (do_call repaired s p sd srk)).
+Lemma call_spec s p sd srk ns :
+  Inv s -> clean_op (Call p sd srk ns) ->
+  call_post (fst (do_call repaired s p sd srk ns)) (snd (do_call repaired s p sd srk ns)).
 Proof.
   intros HI Hc. unfold do_call.
   set (s1 := match sd with Some x => with_seed s x | None => s end).
@@ -168,12 +184,12 @@ Proof.
     pose proof (Inv_set_pos s1 q m Hq I1) as I2.
     assert (F1 : st_pos (fst (do_set_pos s1 q m)) = Some q) by reflexivity.
     destruct (do_set_pos s1 q m) as [s2 del]. simpl in I2, F1.
-    pose proof (finish_ok s2 del srk I2) as FS.
-    destruct (finish_call repaired s2 del srk) as [s' r]. destruct FS as (IS & PS & o & -> & G & SE & PO & KV).
+    pose proof (finish_ok s2 del srk ns I2) as FS.
+    destruct (finish_call repaired s2 del srk ns) as [s' r]. destruct FS as (IS & PS & o & -> & G & SE & PO & KV).
     simpl. split; [exact IS|]. split; [exact G|split; [exact SE|split; [exact PO|split; [rewrite PS, F1; discriminate|exact KV]]]].
   - destruct (st_pos s1) as [c|] eqn:P.
-    + pose proof (finish_ok s1 false srk I1) as FS.
-      destruct (finish_call repaired s1 false srk) as [s' r]. destruct FS as (IS & PS & o & -> & G & SE & PO & KV).
+    + pose proof (finish_ok s1 false srk ns I1) as FS.
+      destruct (finish_call repaired s1 false srk ns) as [s' r]. destruct FS as (IS & PS & o & -> & G & SE & PO & KV).
       simpl. split; [exact IS|]. split; [exact G|split; [exact SE|split; [exact PO|split; [rewrite PS, P; discriminate|exact KV]]]].
     + simpl. split; [exact I1|exact I].
 Qed.
@@ -187,10 +203,10 @@ Proof.
                         (S (st_next s2)) (st_seed s2) (st_next s2) (st_ref s2))).
   { intros s2 (B1 & B2 & B3 & R & P & J & K & T). unfold Inv, refreshed, cur_desc, cur_pos, settings. simpl.
     split; [lia|split; [lia|split; [lia|split; [|split; [exact P|split; [|split]]]]]].
-    - intros id m rp F. destruct (R id m rp F). split; [lia|assumption].
+    - intros a id m rp F. destruct (R a id m rp F). split; [lia|assumption].
     - destruct (st_pos s2) eqn:Ps; [now apply P|reflexivity].
     - intros _ _. reflexivity.
-    - intros id m rp _ _ F Eid. destruct (R id m rp F). lia. }
+    - intros a id m rp _ _ F Eid. destruct (R a id m rp F). lia. }
   destruct p as [[q m]|].
   - apply (X (krige_set_pos s q m)). apply Inv_krige_set_pos; [exact Hc|exact HI].
   - destruct (st_pos s) eqn:Ps; [apply (X s)|]; exact HI.
@@ -199,28 +215,33 @@ Qed.
 (* ---------- every operation of the current tree preserves the invariant *)
 Lemma Inv_step s op : Inv s -> clean_op op -> Inv (fst (step repaired s op)).
 Proof.
-  intros HI Hc. destruct op as [p sd srk|q m|k| | | | | |sd|q|p|q]; simpl.
-  - apply (call_spec s p sd srk HI Hc).
+  intros HI Hc. destruct op as [p sd srk ns|q m|k| | | | | | | |sd|q|p|q]; simpl.
+  - apply (call_spec s p sd srk ns HI Hc).
   - apply Inv_set_pos; auto.
   - destruct HI as (B1 & B2 & B3 & R & P & J & K & T). unfold Inv, do_set_cond, refreshed, settings; simpl.
     repeat split; try lia; try discriminate; auto; try (intros; discriminate);
-      try (destruct (R _ _ _ ltac:(eassumption)); try lia; assumption).
+      try (destruct (R _ _ _ _ ltac:(eassumption)); try lia; assumption).
   - destruct HI as (B1 & B2 & B3 & R & P & J & K & T). unfold Inv, do_model_inplace, refreshed, settings; simpl.
-    repeat split; try lia; auto; try (destruct (R _ _ _ ltac:(eassumption)); try lia; assumption);
+    repeat split; try lia; auto; try (destruct (R _ _ _ _ ltac:(eassumption)); try lia; assumption);
       try (intros; eapply T; eauto; fail).
   - destruct HI as (B1 & B2 & B3 & R & P & J & K & T).
     unfold Inv, do_set_model, do_set_cond, do_model_inplace, refreshed, settings; simpl.
     repeat split; try lia; try discriminate; auto; try (intros; discriminate);
-      try (destruct (R _ _ _ ltac:(eassumption)); try lia; assumption).
+      try (destruct (R _ _ _ _ ltac:(eassumption)); try lia; assumption).
   - destruct HI as (B1 & B2 & B3 & R & P & J & K & T). unfold Inv, do_set_mtn, refreshed, settings; simpl.
     repeat split; try lia; try discriminate; auto; try (intros; discriminate);
-      try (destruct (R _ _ _ ltac:(eassumption)); try lia; assumption).
+      try (destruct (R _ _ _ _ ltac:(eassumption)); try lia; assumption).
   - destruct HI as (B1 & B2 & B3 & R & P & J & K & T). unfold Inv, do_set_mtn, refreshed, settings; simpl.
     repeat split; try lia; try discriminate; auto; try (intros; discriminate);
-      try (destruct (R _ _ _ ltac:(eassumption)); try lia; assumption).
+      try (destruct (R _ _ _ _ ltac:(eassumption)); try lia; assumption).
   - destruct HI as (B1 & B2 & B3 & R & P & J & K & T). unfold Inv, do_set_mtn, refreshed, settings; simpl.
     repeat split; try lia; try discriminate; auto; try (intros; discriminate);
-      try (destruct (R _ _ _ ltac:(eassumption)); try lia; assumption).
+      try (destruct (R _ _ _ _ ltac:(eassumption)); try lia; assumption).
+  - (* ReassignModel = set_condition() *)
+    destruct HI as (B1 & B2 & B3 & R & P & J & K & T). unfold Inv, do_set_cond, refreshed, settings; simpl.
+    repeat split; try lia; try discriminate; auto; try (intros; discriminate);
+      try (destruct (R _ _ _ _ ltac:(eassumption)); try lia; assumption).
+  - exact HI.
   - exact HI.
   - exact HI.
   - apply Inv_krige_call; auto.
@@ -244,47 +265,47 @@ Proof.
 Qed.
 
 (* ---------- cache coherence over all histories *)
-Theorem cache_coherent sd0 ops p sd srk :
-  clean ops -> clean_op (Call p sd srk) ->
+Theorem cache_coherent sd0 ops p sd srk ns :
+  clean ops -> clean_op (Call p sd srk ns) ->
   let s := run repaired ops (init sd0) in
-  forall s' o, step repaired s (Call p sd srk) = (s', RField o) -> refreshed s' ->
+  forall s' o, step repaired s (Call p sd srk ns) = (s', RField o) -> refreshed s' ->
   same_field (RField o) (fresh_result s').
 Proof.
   intros Hc Hop s s' o E Hr.
   assert (HI : Inv s) by (apply Inv_run; [apply Inv_init|exact Hc]).
-  pose proof (call_spec s p sd srk HI Hop) as C. simpl in E. rewrite E in C. simpl in C.
+  pose proof (call_spec s p sd srk ns HI Hop) as C. simpl in E. rewrite E in C. simpl in C.
   destruct C as (_ & G & SE & PO & _ & KV). destruct (KV Hr) as [K V].
   rewrite fresh_result_eq. simpl. unfold refreshed in Hr.
   rewrite K, V, G, SE, PO. unfold cur_desc. rewrite Hr. repeat split.
 Qed.
 
 (* whenever the reuse branch is taken in a refreshed state, the stored results are the current ones *)
-Theorem reuse_only_current sd0 ops p sd srk :
-  clean ops -> clean_op (Call p sd srk) ->
+Theorem reuse_only_current sd0 ops p sd srk ns :
+  clean ops -> clean_op (Call p sd srk ns) ->
   let s := run repaired ops (init sd0) in
-  forall s' o, step repaired s (Call p sd srk) = (s', RField o) -> refreshed s' -> o_reuse o = true ->
+  forall s' o, step repaired s (Call p sd srk ns) = (s', RField o) -> refreshed s' -> o_reuse o = true ->
   o_k o = cur_desc s' /\ o_v o = cur_desc s'.
 Proof.
   intros Hc Hop s s' o E Hr _.
   assert (HI : Inv s) by (apply Inv_run; [apply Inv_init|exact Hc]).
-  pose proof (call_spec s p sd srk HI Hop) as C. simpl in E. rewrite E in C. simpl in C.
+  pose proof (call_spec s p sd srk ns HI Hop) as C. simpl in E. rewrite E in C. simpl in C.
   destruct C as (_ & _ & _ & _ & _ & KV). exact (KV Hr).
 Qed.
 
 (* ---------- legitimate reuse: same position (or none given), any new seed, on every version of the tree *)
-Lemma token_ok_ext s t : st_pos s = st_pos t -> st_mesh s = st_mesh t -> st_kvid s = st_kvid t -> st_ref s = st_ref t ->
-  token_ok s = token_ok t.
+Lemma token_ok_ext fx ns s t : st_pos s = st_pos t -> st_mesh s = st_mesh t -> st_kvid s = st_kvid t -> st_ref s = st_ref t ->
+  token_ok fx s ns = token_ok fx t ns.
 Proof. intros A B C D. unfold token_ok, cur_pos. now rewrite A, B, C, D. Qed.
 
-Lemma finish_facts fx sb del :
-  let s1 := fst (finish_call fx sb del true) in
-  has 2 (st_cnames s1) = true /\ has 1 (st_knames s1) = true /\
-  (if f_token fx then token_ok s1 else true) = true /\
+Lemma finish_facts fx sb del ns :
+  let s1 := fst (finish_call fx sb del true ns) in
+  has (3 * ns + 2) (st_cnames s1) = true /\ has 1 (st_knames s1) = true /\
+  (if f_token fx then token_ok fx s1 ns else true) = true /\
   st_pos s1 = st_pos sb /\ st_mesh s1 = st_mesh sb /\
-  exists o, snd (finish_call fx sb del true) = RField o /\ st_rk s1 = o_k o /\ st_kv s1 = o_v o.
+  exists o, snd (finish_call fx sb del true ns) = RField o /\ st_rk s1 ns = o_k o /\ st_kv s1 = o_v o.
 Proof.
-  unfold finish_call. cbn [fst snd st_cnames st_knames st_pos st_mesh st_rk st_kv].
-  set (reuse := negb del && has 2 (st_cnames sb) && has 1 (st_knames sb) && (if f_token fx then token_ok sb else true)).
+  unfold finish_call. change (rkset true ns) with ns. cbn [fst snd st_cnames st_knames st_pos st_mesh st_rk st_kv].
+  set (reuse := negb del && has (3 * ns + 2) (st_cnames sb) && has 1 (st_knames sb) && (if f_token fx then token_ok fx sb ns else true)).
   destruct reuse eqn:E.
   - unfold reuse in E. apply andb_true_iff in E. destruct E as [E E4]. apply andb_true_iff in E. destruct E as [E E3].
     apply andb_true_iff in E. destruct E as [_ E2]. simpl.
@@ -293,34 +314,35 @@ Proof.
     destruct (f_token fx); [|reflexivity]. rewrite <- E4. apply token_ok_ext; reflexivity.
   - simpl.
     split; [do 2 apply has_add_mono; apply has_add_same|]. split; [apply has_add_mono; apply has_add_same|].
-    split; [|split; [reflexivity|split; [reflexivity|eexists; split; [reflexivity|split; reflexivity]]]].
-    destruct (f_token fx); [|reflexivity]. unfold token_ok, cur_pos. simpl.
+    split; [|split; [reflexivity|split; [reflexivity|eexists; split; [reflexivity|split; [apply upd_same|reflexivity]]]]].
+    destruct (f_token fx); [|reflexivity]. unfold token_ok, cur_pos. simpl. rewrite upd_same.
     rewrite Nat.eqb_refl, eqb_reflx. unfold pos_close. now rewrite Nat.eqb_refl.
 Qed.
 
-Lemma finish_reuse fx st srk :
-  has 2 (st_cnames st) = true -> has 1 (st_knames st) = true -> (if f_token fx then token_ok st else true) = true ->
-  exists s2 o2, finish_call fx st false srk = (s2, RField o2) /\ o_reuse o2 = true /\ o_k o2 = st_rk st /\ o_v o2 = st_kv st.
+Lemma finish_reuse fx st srk ns : rkset srk ns = ns ->
+  has (3 * ns + 2) (st_cnames st) = true -> has 1 (st_knames st) = true -> (if f_token fx then token_ok fx st ns else true) = true ->
+  exists s2 o2, finish_call fx st false srk ns = (s2, RField o2) /\ o_reuse o2 = true /\ o_k o2 = st_rk st ns /\ o_v o2 = st_kv st.
 Proof.
-  intros H2 H1 HT. unfold finish_call. rewrite H2, H1, HT. simpl. eexists _, _. split; [reflexivity|]. simpl. auto.
+  intros HR H2 H1 HT. unfold finish_call. rewrite HR. rewrite H2, H1, HT. simpl. eexists _, _. split; [reflexivity|]. simpl. auto.
 Qed.
 
-Theorem reuse_when_unchanged fx s p sd s1 o1 :
-  step fx s (Call p sd true) = (s1, RField o1) ->
-  forall q sd2 srk, (q = None \/ exists c, q = Some (c, st_mesh s1) /\ pos_close (cur_pos s1) c = true) ->
-  exists s2 o2, step fx s1 (Call q sd2 srk) = (s2, RField o2) /\ o_reuse o2 = true /\ o_k o2 = o_k o1 /\ o_v o2 = o_v o1.
+Theorem reuse_when_unchanged fx s p sd ns s1 o1 :
+  step fx s (Call p sd true ns) = (s1, RField o1) ->
+  forall q sd2 srk, rkset srk ns = ns ->
+  (q = None \/ exists c, q = Some (c, st_mesh s1) /\ pos_close (cur_pos s1) c = true) ->
+  exists s2 o2, step fx s1 (Call q sd2 srk ns) = (s2, RField o2) /\ o_reuse o2 = true /\ o_k o2 = o_k o1 /\ o_v o2 = o_v o1.
 Proof.
   simpl. unfold do_call at 1.
   set (sa := match sd with Some x => with_seed s x | None => s end).
-  intros E q sd2 srk Hq.
-  assert (X : exists sb del, finish_call fx sb del true = (s1, RField o1) /\ st_pos sb <> None).
+  intros E q sd2 srk HR Hq.
+  assert (X : exists sb del, finish_call fx sb del true ns = (s1, RField o1) /\ st_pos sb <> None).
   { destruct p as [[c m]|].
     - assert (F1 : st_pos (fst (do_set_pos sa c m)) = Some c) by reflexivity.
       destruct (do_set_pos sa c m) as [sb del]. simpl in F1.
       exists sb, del. split; [exact E|]. rewrite F1. discriminate.
     - destruct (st_pos sa) eqn:P; [|discriminate]. exists sa, false. split; [exact E|]. rewrite P. discriminate. }
   destruct X as (sb & del & F & Pb).
-  pose proof (finish_facts fx sb del) as N. rewrite F in N. cbn [fst snd] in N.
+  pose proof (finish_facts fx sb del ns) as N. rewrite F in N. cbn [fst snd] in N.
   destruct N as (N2 & N1 & TK & P1 & M1 & o & Eo & K1 & K2). injection Eo as <-.
   rewrite <- K1, <- K2.
   unfold do_call.
@@ -332,17 +354,17 @@ Proof.
   destruct C as (C1 & C2 & C3 & C4 & C5 & C6 & C7 & C8).
   destruct Hq as [->|(c & -> & Hcl)].
   - rewrite C1, P1. destruct (st_pos sb) eqn:Pb'; [|contradiction].
-    rewrite <- C5, <- C6. apply finish_reuse; [now rewrite C3|now rewrite C4|].
+    rewrite <- C5, <- C6. apply finish_reuse; [exact HR|now rewrite C3|now rewrite C4|].
     destruct (f_token fx); [|reflexivity]. rewrite <- TK. apply token_ok_ext; auto.
   - assert (D : pos_changed sc c (st_mesh s1) = false).
     { unfold pos_changed. rewrite C1, C2, eqb_reflx. unfold cur_pos in Hcl.
       destruct (st_pos s1); [now rewrite Hcl|]. rewrite P1 in Pb. contradiction. }
     unfold do_set_pos. rewrite D.
-    match goal with |- context [finish_call fx ?st false srk] => set (sd_ := st) end.
+    match goal with |- context [finish_call fx ?st false srk ns] => set (sd_ := st) end.
     rewrite <- C5, <- C6. change (st_rk sc) with (st_rk sd_). change (st_kv sc) with (st_kv sd_).
-    apply finish_reuse; [simpl; now rewrite C3|simpl; now rewrite C4|].
+    apply finish_reuse; [exact HR|simpl; now rewrite C3|simpl; now rewrite C4|].
     destruct (f_token fx); [|reflexivity]. unfold token_ok, cur_pos in *. simpl. rewrite C7, C8.
-    destruct (st_ref s1) as [[[id m] rp]|]; [|discriminate].
+    destruct (st_ref s1 (slot fx ns)) as [[[id m] rp]|]; [|discriminate].
     apply andb_true_iff in TK. destruct TK as [TK T3]. rewrite TK. simpl.
     destruct (st_pos s1) as [c1|]; [|rewrite P1 in Pb; contradiction].
     unfold pos_close in *. apply Nat.eqb_eq in Hcl, T3. apply Nat.eqb_eq. congruence.
@@ -350,16 +372,17 @@ Qed.
 
 (* ---------- the hypothesis [refreshed] of cache_coherent: the documented refresh (set_condition, with or without
    arguments) and a model re-assignment always establish it; only an in-place model change can destroy it *)
-Lemma finish_refreshed fx s2 del srk : refreshed s2 -> refreshed (fst (finish_call fx s2 del srk)).
+Lemma finish_refreshed fx s2 del srk ns : refreshed s2 -> refreshed (fst (finish_call fx s2 del srk ns)).
 Proof. intros H. exact H. Qed.
 
 Theorem refreshed_characterised (s : St) :
   (forall k, refreshed (fst (step repaired s (SetCond k)))) /\
   refreshed (fst (step repaired s SetModel)) /\
+  refreshed (fst (step repaired s ReassignModel)) /\
   (forall op, refreshed s -> op <> ModelInplace -> refreshed (fst (step repaired s op))).
 Proof.
-  split; [intros k; reflexivity|]. split; [reflexivity|].
-  intros op Hr Hop. destruct op as [p sd srk|q m|k| | | | | |sd|q|p|q]; try reflexivity; try exact Hr; try contradiction.
+  split; [intros k; reflexivity|]. split; [reflexivity|]. split; [reflexivity|].
+  intros op Hr Hop. destruct op as [p sd srk ns|q m|k| | | | | | | |sd|q|p|q]; try reflexivity; try exact Hr; try contradiction.
   - simpl. unfold do_call.
     set (s1 := match sd with Some x => with_seed s x | None => s end).
     assert (R1 : refreshed s1) by (unfold s1; destruct sd; exact Hr).
@@ -385,40 +408,56 @@ Ltac stale_witness :=
   eexists _, _; split; [vm_compute; reflexivity|]; split; [vm_compute; reflexivity|];
   vm_compute; intros (H & _); discriminate H.
 
-Definition c0 : Op := Call (Some (P0, false)) None true.
+Definition c0 : Op := Call (Some (P0, false)) None true 0.
 Definition hist_set_condition := [c0; SetCond NewVals].
 Definition hist_mean := [c0; SetMean].
 Definition hist_model := [c0; SetModel; SetCond Refresh].
 Definition hist_inplace_refresh := [c0; ModelInplace; SetCond Refresh].
 
 (* the pinned tree (before 2a36b2f) *)
-Theorem pinned_refuted_set_condition : stale pinned 7 hist_set_condition (Call None None true).
+Theorem pinned_refuted_set_condition : stale pinned 7 hist_set_condition (Call None None true 0).
 Proof. stale_witness. Qed.
-Theorem pinned_refuted_mean : stale pinned 7 hist_mean (Call None None true).
+Theorem pinned_refuted_mean : stale pinned 7 hist_mean (Call None None true 0).
 Proof. stale_witness. Qed.
-Theorem pinned_refuted_model : stale pinned 7 hist_model (Call None (Some 3) true).
+Theorem pinned_refuted_model : stale pinned 7 hist_model (Call None (Some 3) true 0).
 Proof. stale_witness. Qed.
-Theorem pinned_refuted_inplace_refresh : stale pinned 7 hist_inplace_refresh (Call None None true).
+Theorem pinned_refuted_inplace_refresh : stale pinned 7 hist_inplace_refresh (Call None None true 0).
 Proof. stale_witness. Qed.
 
 (* the tree after 2a36b2f only: aliased positions, direct kriging call, pos assignment, raw_krige not stored *)
 Definition hist_mutate := [c0; MutatePos P1].
 Definition hist_direct_krige := [c0; KrigeCall (Some (P1, false))].
 Definition hist_assign_pos := [c0; AssignPos P1].
-Definition hist_no_store := [c0; SetCond NewVals; Call None None false].
+Definition hist_no_store := [c0; SetCond NewVals; Call None None false 0].
 
-Theorem first_repair_refuted_mutate_pos : stale first_repair 7 hist_mutate (Call (Some (P1, false)) None true).
+Theorem first_repair_refuted_mutate_pos : stale first_repair 7 hist_mutate (Call (Some (P1, false)) None true 0).
 Proof. stale_witness. Qed.
-Theorem first_repair_refuted_direct_krige : stale first_repair 7 hist_direct_krige (Call None None true).
+Theorem first_repair_refuted_direct_krige : stale first_repair 7 hist_direct_krige (Call None None true 0).
 Proof. stale_witness. Qed.
-Theorem first_repair_refuted_assign_pos : stale first_repair 7 hist_assign_pos (Call None None true).
+Theorem first_repair_refuted_assign_pos : stale first_repair 7 hist_assign_pos (Call None None true 0).
 Proof. stale_witness. Qed.
-Theorem first_repair_refuted_no_store : stale first_repair 7 hist_no_store (Call None None true).
+Theorem first_repair_refuted_no_store : stale first_repair 7 hist_no_store (Call None None true 0).
 Proof. stale_witness. Qed.
+
+(* one reference slot shared by all store names (instead of one per raw-kriging name): a call under other names
+   makes the stale default-named raw kriging field look current *)
+Definition hist_other_names := [c0; SetCond NewVals; Call None None true 1].
+Theorem shared_ref_refuted : stale shared_ref 7 hist_other_names (Call None None true 0).
+Proof. stale_witness. Qed.
+
+(* conditioning arrays kept as views: the caller's in-place edit changes the data behind the stored results *)
+Theorem aliased_cond_refuted : stale aliased_cond 7 [c0; MutateCond] (Call None None true 0).
+Proof. stale_witness. Qed.
+
+(* in-place model edit followed by re-assignment of the same object: up to date again, the old results are gone *)
+Example reassign_same_model_refreshes :
+  let s := run repaired [c0; ModelInplace; ReassignModel] (init 7) in
+  refreshed s /\ exists s' o, step repaired s (Call None None true 0) = (s', RField o) /\ o_reuse o = false.
+Proof. split; [reflexivity|]. eexists _, _. split; [vm_compute; reflexivity|reflexivity]. Qed.
 
 (* ---------- the np.allclose window: a position change below the tolerance keeps the stored results *)
 Theorem window_refuted :
-  exists s' o, step repaired (run repaired [c0] (init 7)) (Call (Some (P0j, false)) None true) = (s', RField o)
+  exists s' o, step repaired (run repaired [c0] (init 7)) (Call (Some (P0j, false)) None true 0) = (s', RField o)
                /\ refreshed s' /\ o_reuse o = true /\ ~ same_field (RField o) (fresh_result s').
 Proof.
   eexists _, _. split; [vm_compute; reflexivity|]. split; [vm_compute; reflexivity|]. split; [reflexivity|].
@@ -427,7 +466,8 @@ Qed.
 
 (* the hypotheses of cache_coherent are satisfiable, by a history that exercises every operation *)
 Example clean_example :
-  clean [c0; Call None (Some 5) false; SetCond NewVals; Call (Some (P0, false)) None true;
-         SetPos P1 true; ModelInplace; SetCond Refresh; SetModel; SetMean; SetTrend; SetNorm; SetGen 4;
-         MutatePos P0; KrigeCall (Some (P0, true)); KrigeCall None; AssignPos P1; Call (Some (P1, true)) (Some 9) true].
+  clean [c0; Call None (Some 5) false 0; SetCond NewVals; Call (Some (P0, false)) None true 1;
+         SetPos P1 true; ModelInplace; ReassignModel; ModelInplace; SetCond Refresh; SetModel; SetMean; SetTrend; SetNorm;
+         SetGen 4; MutateCond; MutatePos P0; KrigeCall (Some (P0, true)); KrigeCall None; AssignPos P1;
+         Call (Some (P1, true)) (Some 9) true 2].
 Proof. repeat constructor. Qed.
